@@ -39,8 +39,8 @@ CHECKS.update({
    text='Exact polynomial identities on fully symbolic complex states and gate matrices (gate not assumed unitary), every configuration enumerated for n<=3 (4 thorough): state.apply_gate == Embed(U,idx).q for all ordered target tuples of size 1..3; '
         'apply_control_n_gate == controlled embedding for every disjoint control subset (input not mutated); dm.apply_gate == E rho E^dagger; operator_expectation == Tr(rho Embed(O)); reduce_to_probability == Born marginal; inner_product_psi0_O_psi1; '
         'Circuit: loop-cut dispatch obligation (one iteration applies exactly (gate.array,index) through the proved function) => ordered product by induction on the gate list; to_unitary returns the matrix of apply_state; '
-        'shift_qubit_index_ for a symbolic integer delta; every recording method appends exactly (Gate, normalised index).',
-   note=ALG_NOTE + ' Induction over the gate list is the listed meta-step. Parametrised gate matrices, custom gates, unitarity of to_unitary and random circuits over the whole vocabulary are bounded (Kronecker-product oracle).',
+        'shift_qubit_index_ for a symbolic integer delta; every recording method appends exactly (Gate, normalised index); the qubit gate matrices rx, ry, rz, u3, rzz, pauli_exponential equal their textbook closed forms and are unitary for SYMBOLIC angles (trig normal form), the fixed gates exactly.',
+   note=ALG_NOTE + ' Induction over the gate list is the listed meta-step. Qudit rotations (d>2), custom gates, unitarity of to_unitary, query-modify-query histories of one circuit object and random circuits over the whole vocabulary are bounded (Kronecker-product oracle).',
    tech=TECH + 'loop-body extraction for the circuit induction; run-time contract evaluation on random circuits as bounded stand-in'),
  'C11': dict(level='proof', ref='DESIGN.md §7 C11',
    text='For every non-empty ascending subset of n<=3 (4 thorough) qubits plus selected 4-6 qubit subsets, every outcome k, and a fully symbolic complex state: prob == Born marginal, sum prob == ||q||^2, the generator draws from the reported distribution, '
